@@ -14,6 +14,7 @@ import (
 )
 
 func WriteTar(ctx context.Context, fs FS, w io.Writer) error {
+	fs = WithHardlinkReset(fs)
 	tw := tar.NewWriter(w)
 	err := fs.Walk(ctx, "/", func(path string, entry os.DirEntry, err error) error {
 		if err != nil && !errors.Is(err, os.ErrNotExist) {
